@@ -82,7 +82,16 @@ def rsa_priv(nums, em):
 
 @st.composite
 def strat_v15(draw, tier):
-    return {"bits": draw(st.sampled_from(RSA_BITS if tier == "thorough" else RSA_BITS[:4])), "hash": draw(st.sampled_from(V15_HASHES)),
+    bits = draw(st.sampled_from(RSA_BITS if tier == "thorough" else RSA_BITS[:4]))
+    h = draw(st.sampled_from(V15_HASHES))
+    if draw(st.integers(0, 6)) == 0:
+        # the smallest moduli: k = tLen + 11 is the minimum of EMSA-PKCS1-v1_5 (8 bytes of FF), k = tLen + 10 must be refused at signing
+        try:
+            tlen = len(rp.emsa_pkcs1_v15(h.replace("_", "-"), bytes(oracles.HASHES[h][1]), 256).split(b"\x00", 2)[2])
+            bits = 8 * (tlen + 11 + draw(st.sampled_from([-1, 0, 0, 1]))) - draw(st.sampled_from([0, 0, 3]))
+        except (ValueError, KeyError, IndexError):
+            pass
+    return {"bits": bits, "hash": h,
             "msg": draw(st.binary(max_size=60)), "cand": draw(st.sampled_from(V15_CANDS)), "pos": draw(st.integers(0, 10 ** 6))}
 
 
@@ -95,11 +104,22 @@ def run_v15(case, rec):
     hf = oracles.HASHES[hname][0]
     digest = hf(msg)
     ref_name = hname.replace("_", "-")
+    info = {"bits": case["bits"], "hash": hname, "cand": cand}
     try:
         em_ok = rp.emsa_pkcs1_v15(ref_name, digest, k)
-    except (ValueError, KeyError):
+    except KeyError:
         raise Skip()
-    info = {"bits": case["bits"], "hash": hname, "cand": cand}
+    except ValueError:
+        # "intended encoded message length too short": the library must refuse to sign, too
+        # (the docstring promises ValueError, the code raises TypeError: outside C04's statement, counted only)
+        kk_, r_ = libcall(pkcs1_15.new(kobj).sign, oracles.lib_hash_new(hname, msg), allowed=(ValueError, TypeError), bucket="pkcs1v15/sign")
+        if kk_ == "exc" and isinstance(r_, TypeError):
+            rec.event("doc-mismatch:pkcs1v15-key-too-small-raises-TypeError")
+        if kk_ == "ok":
+            raise Violation("pkcs1v15/signed-with-too-small-key", "a %d-byte modulus cannot hold DigestInfo(%s) + 11 bytes, yet sign() returned" % (k, hname), **info)
+        rec.nt("v15", "key-too-small", hname)
+        rec.event("pkcs1v15:key-too-small-refused")
+        return
     h = oracles.lib_hash_new(hname, msg)
     signer = pkcs1_15.new(kobj)
     sig = bytes(signer.sign(h))
@@ -219,6 +239,9 @@ def strat_pss(draw, tier):
     bits = draw(st.sampled_from(RSA_BITS if tier == "thorough" else RSA_BITS[:4]))
     h = draw(st.sampled_from(PSS_HASHES))
     hl = oracles.HASHES[h][1]
+    if draw(st.integers(0, 6)) == 0:
+        # the smallest moduli for this hash: emLen = hLen + 2 (only the empty salt fits), a little more, and modBits = 8t+1 (emLen = k-1)
+        bits = 8 * (hl + 2 + draw(st.sampled_from([0, 0, 1, 2, hl]))) + draw(st.sampled_from([1, 1, 0, -3]))
     em_len = (bits - 1 + 7) // 8
     mx = em_len - hl - 2
     return {"bits": bits, "hash": h, "slen": draw(st.one_of(st.none(), st.sampled_from([0, 1, hl, mx, mx - 1]), st.integers(0, max(0, mx)))),
@@ -239,11 +262,19 @@ def run_pss(case, rec):
     if mx < 0:
         raise Skip()
     slen_cfg = case["slen"]
+    if slen_cfg is not None and slen_cfg < 0:
+        raise Skip()
     slen = hl if slen_cfg is None else min(slen_cfg, mx)
     if slen_cfg is not None:
         slen_cfg = slen
     if slen > mx:
-        raise Skip()
+        # default salt length (hLen) does not fit this modulus: signing must be refused (RFC 8017 9.1.1 step 3)
+        kk_, r_ = libcall(pss.new(kobj, rand_func=Tape(case["seed"])).sign, oracles.lib_hash_new(hname, msg), allowed=(ValueError,), bucket="pss/sign")
+        if kk_ == "ok":
+            raise Violation("pss/signed-with-too-small-key", "emLen %d < hLen + sLen + 2, yet sign() returned" % em_len, bits=case["bits"], hash=hname)
+        rec.nt("pss", "key-too-small", hname)
+        rec.event("pss:key-too-small-refused")
+        return
     mgf_h = case["mgf_hash"]
     if mgf_h:
         mf = oracles.HASHES[mgf_h][0]
